@@ -12,6 +12,7 @@ DEFAULT_PROFILE = {
     "multi": 0.15,         # probability of more than one pool
     "simple": 0.25,        # probability that a pool is a SimpleTaskPool
     "badpool": 0.03,       # probability of an invalid constructor call
+    "multi_await": 0.2,    # share of the gated workers that have one or two further suspension points (modes g1 / g2)
     "sizes": ["0", "1", "1", "2", "2", "3", "4", "inf"],
     "winddown": True,
     "probe": True,
@@ -72,7 +73,9 @@ def gen_hooks(rng, p_any):
 
 
 def gen_spec(rng, prof, ctx=None):
-    """[mode, swallow, end cb, cancel cb, bad call, is coroutine function, hooks]"""
+    """[mode, swallow, end cb, cancel cb, bad call, is coroutine function, hooks]
+    mode: r = returns at once, x = raises at once, g = gated (one suspension point), g1 / g2 = gated with one / two further
+    suspension points (a modest share of the gated workers of every profile: `multi_await`)"""
     hooks = gen_hooks(rng, prof["hooks"])
     cbs = prof.get("cbs", CBS)
     if ctx is not None and has_unlock(hooks):
@@ -82,7 +85,10 @@ def gen_spec(rng, prof, ctx=None):
             ctx.unlock_hooks = True
     # swallow: 0 = the worker lets a CancelledError through, 1 = catches it and returns, 2 = catches the first one and goes
     # on awaiting (and lets the next one through)
-    return [rng.choice(prof.get("modes", "ggggrx")), rng.choice(prof.get("sw", "0001")), rng.choice(cbs), rng.choice(cbs),
+    mode = rng.choice(prof.get("modes", "ggggrx"))
+    if mode == "g" and rng.random() < prof.get("multi_await", 0.2):
+        mode = "g" + rng.choice("12")
+    return [mode, rng.choice(prof.get("sw", "0001")), rng.choice(cbs), rng.choice(cbs),
             rng.choice("00001"), rng.choice("1111111110"), hooks]
 
 
